@@ -26,7 +26,7 @@ Definition ex_R (r : Z) := EReg None r.
      10: L0:  ins_7(I0, 2);
      20: I1 += I0 * 2 + (I1 - 1);   if (--I0 > 0) goto L0;
      30: I2 = I1 > 10 ? 1 : I1 * 5;   unless (I2 == 1 || I1 < 0) goto L1 @ 30;
-     40: ins_8();  L1:  ins_9(I2);                                                  *)
+     40: ins_8();  L1:  int x = I2 == 1 ? I1 + 1 : 0;  {"H"}: ins_8();  ins_9(x);  (end of x's scope)  ;     *)
 Definition ex_body : list (Z * Z * sstmt) := [
   (0, 255, SAssign (mkvar None (VReg 1010)) None (ELitI 3));
   (10, 255, SLabel (LUser 0));
@@ -37,29 +37,33 @@ Definition ex_body : list (Z * Z * sstmt) := [
   (30, 255, SCondJmp KwUnless (CExpr (EBin (EBin (ex_R 1012) Eq (ELitI 1)) LogicOr (EBin (ex_R 1011) Lt (ELitI 0)))) (LUser 1) (Some 30));
   (40, 255, SCall 8 []);
   (40, 255, SLabel (LUser 1));
-  (40, 255, SCall 9 [ex_R 1012])
+  (40, 255, SDecl TInt [(0%nat, Some (ETern (EBin (ex_R 1012) Eq (ELitI 1)) (EBin (ex_R 1011) Add (ELitI 1)) (ELitI 0)))]);
+  (40, 4, SCall 8 []);
+  (40, 255, SCall 9 [EVar None 0%nat]);
+  (40, 255, SScopeEnd 0%nat);
+  (40, 255, SNop)
 ].
 Definition ex_st0 := mkpst (mkmem (fun _ => VInt 0) (fun _ => VInt 0)) 0 0 [].
 
 Lemma body_example :
   let rty := fun _ : Z => TInt in let lty := fun _ : nat => TInt in let libm := fun (_ : unop) (_ : Z) => 0 in
   exists code s' st',
-    lower_body ex_avail true rty lty 20 ex_body (mklst 0 []) = Ok (code, s') /\ length code = 25%nat /\
-    wf_body true rty lty 0 ex_body /\ fresh lty (p_mem ex_st0) 0 /\
-    sprog gen_optable libm rty lty 0 None true 10 ex_body Exec ex_st0 = Ok st' /\
+    lower_body ex_avail true rty lty 20 ex_body (mklst 1 []) = Ok (code, s') /\ length code = 34%nat /\
+    wf_body true rty lty 1 ex_body /\ fresh lty (p_mem ex_st0) 1 /\
+    sprog gen_optable libm rty lty 0 (Some 0%nat) true 10 ex_body Exec ex_st0 = Ok st' /\
     p_time st' = 40 /\ p_real st' = 60 /\ length (p_log st') = 5%nat /\ regs (p_mem st') 1011 = VInt 27 /\
-    wprog gen_optable libm lty None 10 code Exec ex_st0 None = Ok st'.
+    wprog gen_optable libm lty (Some 0%nat) 10 code Exec ex_st0 None = Ok st'.
 Proof.
   cbv zeta.
-  destruct (lower_body ex_avail true (fun _ => TInt) (fun _ => TInt) 20 ex_body (mklst 0 [])) as [[code s']| | |] eqn:El;
+  destruct (lower_body ex_avail true (fun _ => TInt) (fun _ => TInt) 20 ex_body (mklst 1 [])) as [[code s']| | |] eqn:El;
     try (vm_compute in El; discriminate).
-  destruct (sprog gen_optable (fun _ _ => 0) (fun _ => TInt) (fun _ => TInt) 0 None true 10 ex_body Exec ex_st0) as [st'| | |] eqn:Es;
+  destruct (sprog gen_optable (fun _ _ => 0) (fun _ => TInt) (fun _ => TInt) 0 (Some 0%nat) true 10 ex_body Exec ex_st0) as [st'| | |] eqn:Es;
     try (vm_compute in Es; discriminate).
-  assert (Hwf : wf_body true (fun _ => TInt) (fun _ => TInt) 0 ex_body).
+  assert (Hwf : wf_body true (fun _ => TInt) (fun _ => TInt) 1 ex_body).
   { unfold wf_body, ex_body.
-    assert (Harg : forall e, wt_pure (fun _ => TInt) (fun _ => TInt) [] e = true -> locals_below 0 e = true ->
+    assert (Harg : forall e, wt_pure (fun _ => TInt) (fun _ => TInt) [] e = true -> locals_below 1 e = true ->
               (exists a ta, classify true (fun _ => TInt) (fun _ => TInt) [] e = Simple a ta) ->
-              wt_pure (fun _ => TInt) (fun _ => TInt) [] e = true /\ locals_below 0 e = true /\
+              wt_pure (fun _ => TInt) (fun _ => TInt) [] e = true /\ locals_below 1 e = true /\
               exists a ta, classify true (fun _ => TInt) (fun _ => TInt) [] e = Simple a ta) by auto.
     apply Forall_cons. { cbn [snd wf_stmt]. split; [exact I|]. split; [reflexivity|]. left. reflexivity. }
     apply Forall_cons. { exact I. }
@@ -71,9 +75,13 @@ Proof.
     apply Forall_cons. { cbn [snd wf_stmt]. split; [reflexivity|]. split; [reflexivity | exact I]. }
     apply Forall_cons. { cbn [snd wf_stmt]. apply Forall_nil. }
     apply Forall_cons. { exact I. }
+    apply Forall_cons. { cbn [snd wf_stmt]. exists 0%nat. eexists. split; [reflexivity|]. split; [lia|]. split; [reflexivity|]. right. reflexivity. }
+    apply Forall_cons. { cbn [snd wf_stmt]. apply Forall_nil. }
     apply Forall_cons. { cbn [snd wf_stmt]. apply Forall_cons; [apply Harg; [reflexivity|reflexivity|eexists; eexists; reflexivity]|]. apply Forall_nil. }
+    apply Forall_cons. { cbn [snd wf_stmt]. lia. }
+    apply Forall_cons. { exact I. }
     apply Forall_nil. }
-  assert (Hfr : fresh (fun _ => TInt) (p_mem ex_st0) 0) by (intros d _; reflexivity).
+  assert (Hfr : fresh (fun _ => TInt) (p_mem ex_st0) 1) by (intros d _; reflexivity).
   exists code, s', st'.
   split; [reflexivity|].
   split; [vm_compute in El; inversion El; reflexivity|].
